@@ -6,7 +6,7 @@
    Coq-Interval's Taylor models, which do capture the cancellation, are univariate.  What IS proved, with one univariate
    Taylor-model certificate per curve (files C05_Acc_*.v): the round trip llh -> trs -> llh reproduces latitude within
    1.5e-13 rad (< 1e-6 m of arc at these heights) and height within 1e-6 m
-     - for all latitudes |phi| <= 1.5 rad (85.9 deg), all longitudes, on the two surfaces h = +100 km and h = -100 km
+     - for all latitudes |phi| <= 1.57 rad (89.95 deg), all longitudes, on the two surfaces h = +100 km and h = -100 km
        (the boundary of the band of the property text), and
      - for all heights -100 km <= h <= 100 km, all longitudes, on the normals at |phi| = 1/4, 3/4, 5/4, 3/2 rad.
    Together with trs2llh_exact_on_axis / _on_equator / halley_exact_on_surface (h = 0) these are curves through the band. *)
@@ -14,6 +14,8 @@ From Coq Require Import Reals Lra.
 From Verif Require Import Lib.Atan2 Model.C05_Geodetic Proofs.C05_Geodetic Proofs.C05_AccDefs.
 From Verif Require Import Proofs.C05_Acc_LatP100 Proofs.C05_Acc_HP100 Proofs.C05_Acc_LatM100 Proofs.C05_Acc_HM100.
 From Verif Require Import Proofs.C05_Acc_LatLine14 Proofs.C05_Acc_HLine14 Proofs.C05_Acc_LatLine34 Proofs.C05_Acc_HLine34.
+From Verif Require Import Proofs.C05_Acc_LatP100Polar Proofs.C05_Acc_LatM100Polar Proofs.C05_Acc_HP100PolarA Proofs.C05_Acc_HP100PolarB
+  Proofs.C05_Acc_HP100PolarC Proofs.C05_Acc_HM100PolarA Proofs.C05_Acc_HM100PolarB Proofs.C05_Acc_HM100PolarC.
 From Verif Require Import Proofs.C05_Acc_LatLine54 Proofs.C05_Acc_HLine54 Proofs.C05_Acc_LatLine32 Proofs.C05_Acc_HLine32.
 Open Scope R_scope.
 
@@ -37,7 +39,7 @@ Proof.
   replace (- L - - phi) with (- (L - phi)) by ring. rewrite Rabs_Ropp. exact H1.
 Qed.
 
-Lemma roundtrip_north phi lam h : 0 < phi <= 3 / 2 -> -100000 <= h <= 100000 ->
+Lemma roundtrip_north phi lam h : 0 < phi <= 157 / 100 -> -100000 <= h <= 100000 ->
   Rabs (merid_lat grs80_a grs80_f (geo_p grs80_a grs80_f phi h) (geo_z grs80_a grs80_f phi h) - phi) <= eps_lat ->
   Rabs (merid_h grs80_a grs80_f (geo_p grs80_a grs80_f phi h) (geo_z grs80_a grs80_f phi h) - h) <= eps_h ->
   roundtrip_ok grs80_a grs80_f phi lam h.
@@ -75,16 +77,37 @@ Proof.
   unfold eps_lat, eps_h. split; lra.
 Qed.
 
+(* next to the pole the certificates use the quotient turned over *)
+Lemma merid_lat_cot a f p z : 0 < merid_C a f p z -> 0 < merid_S a f p z ->
+  merid_lat a f p z = PI / 2 - atan (merid_C a f p z / merid_S a f p z).
+Proof.
+  intros HC HS. unfold merid_lat.
+  replace (merid_S a f p z / merid_C a f p z) with (/ (merid_C a f p z / merid_S a f p z)) by (field; lra).
+  apply atan_inv. apply Rdiv_lt_0_compat; assumption.
+Qed.
+
 (* ---- the two surfaces of constant height *)
-Lemma accuracy_on_height_surfaces_l phi lam h : (h = 100000 \/ h = -100000) -> - (3 / 2) <= phi <= 3 / 2 ->
+Lemma accuracy_on_height_surfaces_l phi lam h : (h = 100000 \/ h = -100000) -> - (157 / 100) <= phi <= 157 / 100 ->
   roundtrip_ok grs80_a grs80_f phi lam h.
 Proof.
   intros Hh Hphi.
   assert (Hb : -100000 <= h <= 100000) by (destruct Hh; subst; lra).
-  assert (N : forall q, 0 < q <= 3 / 2 -> roundtrip_ok grs80_a grs80_f q lam h).
+  assert (N : forall q, 0 < q <= 157 / 100 -> roundtrip_ok grs80_a grs80_f q lam h).
   { intros q Hq. apply roundtrip_north; [exact Hq | exact Hb | |].
-    - destruct Hh; subst h; [apply acc_lat_p100 | apply acc_lat_m100]; lra.
-    - destruct Hh; subst h; [apply acc_h_p100 | apply acc_h_m100]; lra. }
+    - destruct (Rle_dec q (3 / 2)) as [Hlo | Hhi].
+      + destruct Hh; subst h; [apply acc_lat_p100 | apply acc_lat_m100]; lra.
+      + destruct Hh; subst h.
+        * destruct (acc_lat_p100_polar_pos q) as [HC HS]; [lra|]. rewrite (merid_lat_cot _ _ _ _ HC HS).
+          apply acc_lat_p100_polar. lra.
+        * destruct (acc_lat_m100_polar_pos q) as [HC HS]; [lra|]. rewrite (merid_lat_cot _ _ _ _ HC HS).
+          apply acc_lat_m100_polar. lra.
+    - destruct (Rle_dec q (3 / 2)) as [H1 | H1];
+        [destruct Hh; subst h; [apply acc_h_p100 | apply acc_h_m100]; lra|].
+      destruct (Rle_dec q (1535 / 1000)) as [H2 | H2];
+        [destruct Hh; subst h; [apply acc_h_p100_polar_a | apply acc_h_m100_polar_a]; lra|].
+      destruct (Rle_dec q (156 / 100)) as [H3 | H3];
+        [destruct Hh; subst h; [apply acc_h_p100_polar_b | apply acc_h_m100_polar_b]; lra|].
+      destruct Hh; subst h; [apply acc_h_p100_polar_c | apply acc_h_m100_polar_c]; lra. }
   destruct (Rtotal_order phi 0) as [Hn | [Hz | Hp]].
   - replace phi with (- (- phi)) by ring. apply roundtrip_south. apply N. lra.
   - subst phi. apply roundtrip_equator. exact Hb.
